@@ -8,6 +8,7 @@ CONSTANTS
   NoArg = 99
   UnknownKey = 98
   DefaultVal = 7
+VIEW TView
 INVARIANT TKeysUnique
 INVARIANT TContentMatch
 CHECK_DEADLOCK FALSE
